@@ -449,9 +449,27 @@ def proof_stage(res, prop, extra_targets=(), drivers=()):
     if hits:
         broken += ['forbidden token: ' + h for h in hits]
         discharged = 0
+    # T2b: the files the property is anchored in are (up to comments / white space) the ones the model was reviewed against
+    from . import x_anchors
+    write_if_changed(os.path.join(LEAN, x_anchors.EXTRACTED), x_anchors.generate(REPO))
+    amod = x_anchors.theorem_module(prop)
+    aname = 'Yaclib.Props.Anchors.%s_anchor_files_unchanged' % prop
+    obligations += 1
+    aok, aerrors, atext = lake_build([amod])
+    if aok:
+        aax, aproblems = audit_axioms(amod, [aname])
+        axioms.update(aax)
+        broken += aproblems
+        if not aproblems and not hits:
+            discharged += 1
+    else:
+        changed = x_anchors.changed_files(prop, REPO)
+        broken.append('%s: the code of %s differs (beyond comments and white space) from the version the model and proofs of %s '
+                      'were reviewed against' % (aname, ', '.join(changed) if changed else 'an anchor file', prop))
+    names = names + [aname]
     res.coverage.update({
         'obligations': obligations, 'discharged': discharged,
-        'checker_cmd': 'cd /verif/lean && lake build %s %s && lake env lean <#print axioms of every theorem in Props/%s.lean>' % (module, ' '.join(drivers), prop),
+        'checker_cmd': 'cd /verif/lean && lake build %s %s %s && lake env lean <#print axioms of every theorem in Props/%s.lean>' % (module, amod, ' '.join(drivers), prop),
         'theorems': names,
         'axioms_used': sorted({a for v in axioms.values() for a in v}),
     })
